@@ -18,6 +18,8 @@ def run(c):
     if not c.coq_make(dirs=["Consumer"]):
         return
     c.coq_properties()
+    from decgen_tie import run_decgen
+    run_decgen(c, "C11")   # regenerated leaf logic (go/decgen) vs the proved golden coq/Gen/DecC11.v
     b = c.go_build("c11corr")
     if not b:
         return
